@@ -46,8 +46,12 @@ func genC01(r *simrt.Rand, tier string, idx int) *hx.Program {
 			p.Ops = append(p.Ops, hx.Op{K: "epoch", A: []int64{int64(1 + r.Intn(3))}})
 		case k < 83:
 			p.Ops = append(p.Ops, hx.Op{K: "hw", A: []int64{int64(r.Intn(1001))}})
-		case k < 93:
+		case k < 90:
 			p.Ops = append(p.Ops, hx.Op{K: "rd", A: []int64{int64(r.Intn(1101)), int64(r.Intn(2))}})
+		case k < 93:
+			// a reader that asks for the newest offset and starts there ("latest"), racing the next append
+			p.Ops = append(p.Ops, hx.Op{K: "rdl", A: []int64{int64(r.Intn(2))}})
+			p.Ops = append(p.Ops, hx.Op{K: "app", A: []int64{int64(1 + r.Intn(8)), int64(r.Uint64() >> 1)}})
 		case k < 96:
 			p.Ops = append(p.Ops, hx.Op{K: "rdstop"})
 		default:
@@ -73,9 +77,12 @@ type c01 struct {
 	nrd     int
 	maxSegs int
 	mutOps  int
+
+	replacing    bool
+	replaceEpoch int
 }
 
-func (c *c01) startReader(start int64, committed bool) {
+func (c *c01) startReader(start int64, committed bool, latest bool) {
 	ctx, cancel := context.WithCancel(context.Background())
 	c.nrd++
 	lr := &liveReader{id: c.nrd, start: start, committed: committed, cancel: cancel, last: -1}
@@ -87,8 +94,23 @@ func (c *c01) startReader(start int64, committed bool) {
 		// A committed reader created beyond the HW (or on an empty log) is documented to
 		// "wait for the next message": it resumes at HW+1, which may lie below its start offset.
 		lowHW := h.hwDone
+		if latest {
+			// what a subscription with start position LATEST does: ask for the newest offset, start there
+			start = log.NewestOffset()
+			lr.start = start
+			if start < 0 {
+				return
+			}
+		}
+		epoch0 := c.replaceEpoch
 		r, err := log.NewReader(start, !committed)
 		if err != nil {
+			if (err == ErrSegmentClosed || err == ErrSegmentReplaced) && (c.replacing || c.replaceEpoch != epoch0) {
+				// reader creation raced a segment replacement (truncation): it failed with a retryable
+				// error and handed out nothing; the property is about what readers return, so this is not judged
+				h.s.Count("probe.newreader_raced_replacement")
+				return
+			}
 			if !log.IsClosed() {
 				h.fail("C01/live", "C01/live/newreader", "live reader %d start=%d committed=%v: %v", lr.id, start, committed, err)
 			}
@@ -129,6 +151,9 @@ func (c *c01) startReader(start int64, committed bool) {
 				return
 			}
 			if committed && off > h.hw {
+				if cr, ok := r.ctxReader.(*committedReader); ok {
+					h.s.Logf("committedReader: pos=%d hwPos=%d hw=%d seg.base=%d hwSeg.base=%d same=%v segpos=%d loghw=%d", cr.pos, cr.hwPos, cr.hw, cr.seg.BaseOffset, cr.hwSeg.BaseOffset, cr.seg == cr.hwSeg, cr.seg.position, log.hw)
+				}
 				h.fail("C01/live", "C01/live/above-hw", "%s: got offset %d above hw %d", who, off, h.hw)
 				return
 			}
@@ -141,11 +166,18 @@ func (c *c01) startReader(start int64, committed bool) {
 	})
 }
 
-func (c *c01) stopReaders() {
+func (c *c01) stopReaders() { c.stopSome(func(*liveReader) bool { return true }) }
+
+func (c *c01) stopSome(which func(*liveReader) bool) {
+	var rs, keep []*liveReader
 	for _, lr := range c.readers {
-		lr.cancel()
+		if which(lr) {
+			lr.cancel()
+			rs = append(rs, lr)
+		} else {
+			keep = append(keep, lr)
+		}
 	}
-	rs := c.readers
 	simrt.WaitUntil("readers-exit", func() bool {
 		for _, lr := range rs {
 			if !lr.done {
@@ -154,7 +186,7 @@ func (c *c01) stopReaders() {
 		}
 		return true
 	})
-	c.readers = nil
+	c.readers = keep
 }
 
 func (c *c01) checkAll(salt int64) {
@@ -267,8 +299,15 @@ func execC01(t *testing.T, prog *hx.Program, dec *simrt.Decider, verbose bool) *
 					break
 				}
 				to := lo + op.Arg(0, 0)*(h.next-lo+1)/1001
-				c.stopReaders()
-				if err := h.log.Truncate(to); err != nil {
+				// Uncommitted readers racing a truncation have no defined outcome and are cancelled first.
+				// Committed readers only ever touch offsets <= HW < to: they stay alive across it.
+				c.stopSome(func(lr *liveReader) bool { return !lr.committed })
+				c.replacing = true
+				c.replaceEpoch++
+				err := h.log.Truncate(to)
+				c.replacing = false
+				c.replaceEpoch++
+				if err != nil {
 					h.fail("C01/truncate", "C01/truncate/error", "Truncate(%d) failed: %v", to, err)
 					break
 				}
@@ -327,13 +366,18 @@ func execC01(t *testing.T, prog *hx.Program, dec *simrt.Decider, verbose bool) *
 					}
 					start = op.Arg(0, 0) * h.next / 1101
 				}
-				c.startReader(start, committed)
+				c.startReader(start, committed, false)
+			case "rdl":
+				if len(c.readers) >= 4 {
+					break
+				}
+				c.startReader(0, op.Arg(0, 0) == 1, true)
 			case "rdstop":
 				c.stopReaders()
 			case "sleep":
 				simrt.Sleep(time.Duration(op.Arg(0, 1)) * time.Millisecond)
 			}
-			if op.K != "rd" && op.K != "sleep" {
+			if op.K != "rd" && op.K != "rdl" && op.K != "sleep" {
 				c.checkAll(int64(i) + 1)
 			}
 		}
